@@ -122,6 +122,7 @@ fn inst(t: &T, env: &Env) -> T {
             _ => panic!("refint: unbound program variable v{}", v),
         },
         T::Cons(h, tl) => T::cons(inst(h, env), inst(tl, env)),
+        T::Cmp(k, a, b) => T::cmp(*k, inst(a, env), inst(b, env)),
         other => other.clone(),
     }
 }
@@ -143,6 +144,7 @@ pub fn walk_star(t: &T, s: &BTreeMap<u32, T>) -> T {
     let w = walk(t, s);
     match w {
         T::Cons(h, tl) => T::cons(walk_star(h, s), walk_star(tl, s)),
+        T::Cmp(k, a, b) => T::cmp(*k, walk_star(a, s), walk_star(b, s)),
         other => other.clone(),
     }
 }
@@ -150,7 +152,7 @@ pub fn walk_star(t: &T, s: &BTreeMap<u32, T>) -> T {
 fn occurs(v: u32, t: &T, s: &BTreeMap<u32, T>) -> bool {
     match walk(t, s) {
         T::V(x) => *x == v,
-        T::Cons(h, tl) => occurs(v, h, s) || occurs(v, tl, s),
+        T::Cons(h, tl) | T::Cmp(_, h, tl) => occurs(v, h, s) || occurs(v, tl, s),
         _ => false,
     }
 }
@@ -180,6 +182,7 @@ pub fn unify(a: &T, b: &T, s: &mut BTreeMap<u32, T>, ext: &mut Vec<(u32, T)>) ->
             }
         }
         (T::Cons(h1, t1), T::Cons(h2, t2)) => unify(h1, h2, s, ext) && unify(t1, t2, s, ext),
+        (T::Cmp(k1, a1, b1), T::Cmp(k2, a2, b2)) => k1 == k2 && unify(a1, a2, s, ext) && unify(b1, b2, s, ext),
         (T::Nil, T::Nil) => true,
         (T::I(x), T::I(y)) => x == y,
         (T::S(x), T::S(y)) => x == y,
@@ -628,6 +631,11 @@ pub fn reify_answer(q: &T, st: &St) -> Answer {
                 let h2 = rename(h, names);
                 let t2 = rename(tl, names);
                 T::cons(h2, t2)
+            }
+            T::Cmp(k, a, b) => {
+                let a2 = rename(a, names);
+                let b2 = rename(b, names);
+                T::cmp(*k, a2, b2)
             }
             other => other.clone(),
         }
